@@ -1264,11 +1264,11 @@ func (e *eg[E, S]) run(a *big.Int, ops []pop) (impl [][]E, errs []string, oracle
 			if errs[n] == "" {
 				errs[n] = "ERR"
 			}
-			// keep register numbering: identity ciphertext
-			id, e2 := pk.Representative(&elgamal.Plaintext[E, S]{})
-			_ = id
-			_ = e2
-			panic(fmt.Sprintf("elgamal %s op %s failed: %s", e.nm, o.text(), errs[n]))
+			// the rest of the sequence depends on this register: not evaluated
+			for m := n + 1; m < len(ops); m++ {
+				errs[m] = "SKIP"
+			}
+			return impl, errs, oracle, oracleD
 		}
 		cs := c.Value().Components()
 		impl[n] = []E{cs[0], cs[1]}
